@@ -10,6 +10,7 @@ import (
 	"sort"
 	"strings"
 
+	"go.temporal.io/api/temporalproto"
 	"google.golang.org/protobuf/proto"
 	"google.golang.org/protobuf/reflect/protoreflect"
 	"google.golang.org/protobuf/reflect/protoregistry"
@@ -142,6 +143,33 @@ type BuildOpts struct {
 	Pad func(f protoreflect.FieldDescriptor) protoreflect.Message
 	// PadAfter is Pad for an element behind the one that carries the path.
 	PadAfter func(f protoreflect.FieldDescriptor) protoreflect.Message
+	// BlobJSON: event-bearing blobs on the path are encoded as ENCODING_TYPE_JSON (Temporal's serializer reads both
+	// encodings) instead of proto3.
+	BlobJSON bool
+	// SiblingBlob ("before" / "after"): a repeated event-bearing blob field on the path gets a second batch of the same
+	// shape in which the leaf holds SiblingValue (a batch with nothing to map next to the one that carries the path).
+	SiblingBlob  string
+	SiblingValue string
+}
+
+// decodeHistoryBlob decodes an event-bearing blob the way Temporal's serializer does (proto3 or JSON).
+func decodeHistoryBlob(b protoreflect.Message, hist proto.Message) error {
+	data := b.Get(b.Descriptor().Fields().ByName("data")).Bytes()
+	if b.Get(b.Descriptor().Fields().ByName("encoding_type")).Enum() == 2 { // ENCODING_TYPE_JSON
+		return temporalproto.CustomJSONUnmarshalOptions{DiscardUnknown: true}.Unmarshal(data, hist)
+	}
+	return proto.Unmarshal(data, hist)
+}
+
+// encodeHistoryBlob stores hist into b as a deterministic proto3 encoding (what the proxy's serializer writes).
+func encodeHistoryBlob(b protoreflect.Message, hist proto.Message) error {
+	nd, err := proto.MarshalOptions{Deterministic: true}.Marshal(hist)
+	if err != nil {
+		return err
+	}
+	b.Set(b.Descriptor().Fields().ByName("data"), protoreflect.ValueOfBytes(nd))
+	b.Set(b.Descriptor().Fields().ByName("encoding_type"), protoreflect.ValueOfEnum(1))
+	return nil
 }
 
 func newMessage(md protoreflect.MessageDescriptor) protoreflect.Message {
@@ -181,11 +209,42 @@ func buildInto(m protoreflect.Message, path Path, o BuildOpts) {
 			b := newMessage(blobMD)
 			b.Set(blobMD.Fields().ByName("encoding_type"), protoreflect.ValueOfEnum(1)) // ENCODING_TYPE_PROTO3
 			b.Set(blobMD.Fields().ByName("data"), protoreflect.ValueOfBytes(data))
+			if o.BlobJSON {
+				js, err := temporalproto.CustomJSONMarshalOptions{}.Marshal(hist.Interface())
+				if err != nil {
+					panic(err)
+				}
+				b.Set(blobMD.Fields().ByName("encoding_type"), protoreflect.ValueOfEnum(2)) // ENCODING_TYPE_JSON
+				b.Set(blobMD.Fields().ByName("data"), protoreflect.ValueOfBytes(js))
+			}
 			return b
 		}
 		if f.IsList() {
 			l := m.Mutable(f).List()
+			var sib protoreflect.Message
+			if o.SiblingBlob != "" {
+				o2 := o
+				o2.Pad, o2.PadAfter, o2.SiblingBlob = nil, nil, ""
+				o2.SetLeaf = func(c protoreflect.Message, leaf protoreflect.FieldDescriptor) {
+					c.Set(leaf, protoreflect.ValueOfString(o.SiblingValue))
+				}
+				h2 := newMessage(historyDescriptor())
+				buildInto(h2, path[1:], o2)
+				d2, err := proto.MarshalOptions{Deterministic: true}.Marshal(h2.Interface())
+				if err != nil {
+					panic(err)
+				}
+				sib = newMessage(blobMD)
+				sib.Set(blobMD.Fields().ByName("encoding_type"), protoreflect.ValueOfEnum(1))
+				sib.Set(blobMD.Fields().ByName("data"), protoreflect.ValueOfBytes(d2))
+			}
+			if sib != nil && o.SiblingBlob == "before" {
+				l.Append(protoreflect.ValueOfMessage(sib))
+			}
 			l.Append(protoreflect.ValueOfMessage(mkBlob()))
+			if sib != nil && o.SiblingBlob == "after" {
+				l.Append(protoreflect.ValueOfMessage(sib))
+			}
 		} else {
 			m.Set(f, protoreflect.ValueOfMessage(mkBlob()))
 		}
@@ -258,7 +317,7 @@ func Visit(m protoreflect.Message, throughBlobs bool, fn func(container protoref
 					return nil
 				}
 				hist := newMessage(historyDescriptor())
-				if e := proto.Unmarshal(data, hist.Interface()); e != nil {
+				if e := decodeHistoryBlob(b, hist.Interface()); e != nil {
 					return e
 				}
 				c, e := Visit(hist, throughBlobs, fn)
@@ -266,11 +325,9 @@ func Visit(m protoreflect.Message, throughBlobs bool, fn func(container protoref
 					return e
 				}
 				if c {
-					nd, e := proto.MarshalOptions{Deterministic: true}.Marshal(hist.Interface())
-					if e != nil {
+					if e := encodeHistoryBlob(b, hist.Interface()); e != nil {
 						return e
 					}
-					b.Set(dataFD, protoreflect.ValueOfBytes(nd))
 					changed = true
 				}
 				return nil
@@ -343,7 +400,7 @@ func CanonicalizeBlobs(m proto.Message) error {
 						return
 					}
 					hist := newMessage(historyDescriptor())
-					if e := proto.Unmarshal(data, hist.Interface()); e != nil {
+					if e := decodeHistoryBlob(b, hist.Interface()); e != nil {
 						err = e
 						return
 					}
@@ -351,12 +408,11 @@ func CanonicalizeBlobs(m proto.Message) error {
 						err = e
 						return
 					}
-					nd, e := proto.MarshalOptions{Deterministic: true}.Marshal(hist.Interface())
-					if e != nil {
+					// canonical form: deterministic proto3, whatever encoding the blob arrived in
+					if e := encodeHistoryBlob(b, hist.Interface()); e != nil {
 						err = e
 						return
 					}
-					b.Set(dataFD, protoreflect.ValueOfBytes(nd))
 				}
 				if fd.IsList() {
 					for i := 0; i < v.List().Len(); i++ {
